@@ -46,6 +46,7 @@
    Every statement above is closed under the global context; nothing is left as a premise for parsed,
    accepted, closed programs. *)
 From stdpp Require Import gmap strings.
+Require Grits.PolarityDefs Grits.gen.PolarityTable Grits.GenPolarityChecks Grits.proofs.PolarityTableAgree.
 Require Import Grits.Base Grits.ModeDefs Grits.Modes Grits.STypes Grits.Forms Grits.Subst Grits.TcDeps Grits.Expand
                Grits.Tc Grits.TcTop Grits.Runtime Grits.spec.RtTyping Grits.spec.Topo
                Grits.proofs.StepErrors Grits.proofs.RtSubst Grits.proofs.RtEffect Grits.proofs.RtSafety
@@ -303,3 +304,18 @@ Print Assumptions C01_examples_syn_ok.
 Print Assumptions C01_static_check_examples.
 Print Assumptions C01_example_in_fragment.
 Print Assumptions C01_example_runs.
+
+(* ---- the model's polarity / mode projections of session types are what the CODE computes ----
+   gen/PolarityTable.v is regenerated on every run by EXECUTING SessionType.Polarity(), Modality(),
+   IsWeakenable and IsContractable of /repo on one value of every type constructor at every mode (every
+   pair of modes for the shifts); polarity_of depends on the head constructor only. *)
+Theorem C01_polarity_table_agrees : Grits.GenPolarityChecks.polarity_agree_b = true.
+Proof. exact Grits.proofs.PolarityTableAgree.polarity_table_agrees. Qed.
+Print Assumptions C01_polarity_table_agrees.
+
+Theorem C01_polarity_of_is_dumped : forall t : Grits.STypes.sty,
+  exists t' p m w c, List.In (t', p, m, w, c) Grits.gen.PolarityTable.polarity_tbl /\
+    Grits.PolarityDefs.kind_of t' = Grits.PolarityDefs.kind_of t /\
+    Grits.PolarityDefs.pol_result_eqb (Grits.PolarityDefs.pol_result_of (Grits.STypes.polarity_of t)) p = true.
+Proof. exact Grits.proofs.PolarityTableAgree.polarity_of_is_dumped. Qed.
+Print Assumptions C01_polarity_of_is_dumped.
